@@ -65,10 +65,10 @@ static void run_trunc(hctx* h, fcase* fc) {
 }
 
 /* ---------- failing sink ---------- */
-typedef struct { long byte_budget, op_budget; int fail_flush_from; long sunk; int failed; uint8_t* data; size_t cap; } sink_t;
+typedef struct { long byte_budget, op_budget; int transient; long sunk; int failed; uint8_t* data; size_t cap; } sink_t;
 static ssize_t sink_write(void* c, const char* b, size_t n) {
     sink_t* s = (sink_t*)c;
-    if (s->op_budget == 0) { s->failed = 1; errno = EIO; return 0; }
+    if (s->op_budget == 0) { s->failed = 1; errno = EIO; if (s->transient) s->op_budget = -1; return 0; }   /* transient: only this one operation fails */
     if (s->op_budget > 0) s->op_budget--;
     size_t take = n;
     if (s->byte_budget >= 0 && (long)take > s->byte_budget) take = (size_t)s->byte_budget;
@@ -92,7 +92,7 @@ static void run_sink(hctx* h, fcase* fc, int kind, long k, const uint8_t* good, 
         (void)!carquet_schema_add_column(sc, fc->cols[i].name, (carquet_physical_type_t)fc->cols[i].ptype, NULL, (carquet_field_repetition_t)fc->cols[i].rep, fc->cols[i].tlen);
     carquet_writer_options_t wo; carquet_writer_options_init(&wo);
     wo.compression = (carquet_compression_t)fc->codec; wo.page_size = fc->page;
-    sink_t s; memset(&s, 0, sizeof s); s.byte_budget = kind == 0 ? k : -1; s.op_budget = kind == 1 ? k : -1;
+    sink_t s; memset(&s, 0, sizeof s); s.byte_budget = kind == 0 ? k : -1; s.op_budget = (kind == 1 || kind == 4) ? k : -1; s.transient = kind == 4;
     FILE* fp = NULL; carquet_writer_t* w = NULL;
     if (kind == 3) { w = carquet_writer_create("/dev/full", sc, &wo, &err); }
     else {
@@ -103,7 +103,7 @@ static void run_sink(hctx* h, fcase* fc, int kind, long k, const uint8_t* good, 
         /* bufmode 2: default (large) buffer: failures are absorbed until flush */
         w = carquet_writer_create_file(fp, sc, &wo, &err);
     }
-    int any_bad = 0; int first = 1;
+    int any_bad = 0; int first = 1; int last_close = -1;
     fprintf(h->out, " | st=");
     if (!w) { fprintf(h->out, "create-failed"); any_bad = 1; }
     else {
@@ -119,7 +119,7 @@ static void run_sink(hctx* h, fcase* fc, int kind, long k, const uint8_t* good, 
             }
             fprintf(h->out, "%s%d", first ? "" : ",", r); first = 0; if (r != 0) any_bad = 1;
         }
-        int r = (int)carquet_writer_close(w);
+        int r = (int)carquet_writer_close(w); last_close = r;
         fprintf(h->out, "%s%d", first ? "" : ",", r); if (r != 0) any_bad = 1;
     }
     int failed = s.failed;
@@ -127,7 +127,10 @@ static void run_sink(hctx* h, fcase* fc, int kind, long k, const uint8_t* good, 
     if (fp) { if (fflush(fp) != 0) { /* the harness's own flush: bytes still buffered never reached the sink */ } fclose(fp); }
     int ok_bytes = 1;
     if (!any_bad && kind != 3) ok_bytes = ((size_t)s.sunk == ngood && memcmp(s.data, good, ngood) == 0);
-    fprintf(h->out, " sunk=%ld failed=%d p_fail_surfaces=%d p_ok_implies_bytes=%d\n", s.sunk, failed, (!failed) || any_bad, ok_bytes);
+    /* the caller carried on after a failed call: OK from close must still mean the sink holds the whole file */
+    int close_ok_bytes = 1;
+    if (w && kind != 3 && last_close == 0) close_ok_bytes = ((size_t)s.sunk == ngood && memcmp(s.data, good, ngood) == 0);
+    fprintf(h->out, " sunk=%ld failed=%d p_fail_surfaces=%d p_ok_implies_bytes=%d p_close_ok_implies_bytes=%d\n", s.sunk, failed, (!failed) || any_bad, ok_bytes, close_ok_bytes);
     h->n_lines++;
     carquet_schema_free(sc); free(s.data);
 }
@@ -218,6 +221,7 @@ static void gen_c18(hctx* h) {
         for (int bufmode = 0; bufmode < 3; bufmode++) {
             for (long k = 0; k <= (long)ng; k += stepk) run_sink(h, &fc, 0, k, good, ng, bufmode);
             for (long k = 0; k < 12; k++) run_sink(h, &fc, 1, k, good, ng, bufmode);
+            for (long k = 0; k < 12; k++) run_sink(h, &fc, 4, k, good, ng, bufmode);   /* one failing operation, caller carries on */
         }
         run_sink(h, &fc, 3, 0, good, ng, 2);
         for (int at = 0; at <= fc.nsteps; at++) run_abort(h, &fc, at);
